@@ -5,7 +5,7 @@ States      : build trees of the real prebuild binary (thorough: all 180 configu
 Transitions : one (configuration, profile file) pair handed to apparmor_parser 3.0.8 over an overlay
               (upstream policy dir + stand-ins of DESIGN.md §2 + the build output on top)
 Oracle      : exit status 0 of `apparmor_parser -Q -K -d` (quick, thorough) and of the full compile `-S`
-              (thorough, complain-mode configurations); abstractions / tunables / mappings are read through
+              (thorough: complain-mode configurations; quick: the files one full-policy configuration adds or changes); abstractions / tunables / mappings are read through
               the profiles that include them (the include closure is accounted for in the evidence).
 Parser runs are de-duplicated on sha256(profile bytes + bytes of its include closure + mode): equal
 keys mean byte-identical parser input.
@@ -18,7 +18,7 @@ PROP = 'C01'
 
 
 def _cfg_job(a):
-    cfg, tree, cas, root, modes = a
+    cfg, tree, cas, root, modes, sonly = a
     cfg = cfgx.Cfg(*cfg)
     base = os.path.join(root, 'base.%d' % os.getpid())
     shutil.rmtree(base, ignore_errors=True)
@@ -41,6 +41,8 @@ def _cfg_job(a):
             for rel in sorted(cl):
                 h.update(rel.encode()); h.update(fsha(rel).encode() if not rel.startswith('?') else b'?')
             for mode in modes:
+                if mode == '-S' and sonly is not None and f not in sonly:
+                    continue
                 key = hashlib.sha256((h.hexdigest() + mode + f).encode()).hexdigest()
                 kp = os.path.join(pc, key)
                 if os.path.exists(kp):
@@ -74,11 +76,25 @@ def run(tier):
     ex.close()
     root = os.path.join(C.scratch(), 'c01'); os.makedirs(root, exist_ok=True)
     jobs = []
+    # quick tier: the full compile for one full-system-policy and one normal configuration (merge conflicts such as
+    # "conflicting x modifiers" only show when the parser builds the DFA, not in parse mode)
+    cq = next((c for c in cfgs if c.full and c.mode == 'complain'), None)
+    sonly = {}
+    if tier != 'thorough' and cq is not None:
+        twin = cq._replace(full=False)
+        if twin not in trees:
+            ex2 = cfgx.Explorer(jobs=1)
+            try:
+                trees[twin] = ex2.build_all([twin])[twin]
+            finally:
+                ex2.close()
+        # the files the full-policy option adds or changes (its profiles, the stack hosts, every rewritten exec rule)
+        sonly[cq] = {f for f in cfgx.aa_files(trees[cq]) if trees[cq].get('apparmor.d/' + f) != trees[twin].get('apparmor.d/' + f)}
     for c in cfgs:
         modes = ['-d']
-        if tier == 'thorough' and c.mode == 'complain':
+        if c.mode == 'complain' and (tier == 'thorough' or c == cq):
             modes.append('-S')
-        jobs.append((tuple(c), trees[c], ex.cas, root, modes))
+        jobs.append((tuple(c), trees[c], ex.cas, root, modes, sonly.get(c)))
     with ProcessPoolExecutor(C.NPROC) as pool:
         results = list(pool.map(_cfg_job, jobs, chunksize=1))
     logical = 0; runs = 0; unreached_all = set()
@@ -99,7 +115,7 @@ def run(tier):
     ev.assume('reference parser is apparmor_parser 3.0.8 with --kernel-features abi/3.0; ABI-4 targets: abi/4.0 := copy of abi/3.0 and rules of kind userns/mqueue/io_uring/all commented out by the harness; version 4.1: the five files the build drops as "upstreamed" are supplied from the source tree',
               'abstractions/tunables/mappings are judged through the profiles that include them, as the property states; files no profile includes are listed, not judged')
     if tier != 'thorough':
-        ev.assume('quick tier: parse mode -d only (syntax, includes, variables, same-path x conflicts); the full DFA compile -S runs in the thorough tier')
+        ev.assume('quick tier: parse mode -d for every configuration, the full DFA compile -S for the files of %s that the full-policy option adds or changes; -S for every file of every complain configuration runs in the thorough tier' % (cfgx.tag(cq) if cq else None))
     return C.conclude(ev, fnd)
 
 
